@@ -42,14 +42,17 @@ def run(ctx):
             {"cfg": "Traceparent_quick3.cfg", "workers": 4, "actions": ACTIONS},
         ]
     else:
+        full = ACTIONS + TASKS + LAZY + ["Header"]
         configs = [
-            {"cfg": "Traceparent_thorough.cfg", "workers": 10, "replay": False,
-             "actions": ACTIONS + TASKS + LAZY + ["Header"]},
-            {"cfg": "Traceparent_thorough2.cfg", "workers": 10, "replay": False,
-             "actions": ACTIONS + TASKS + LAZY + ["Header"]},
-            {"cfg": "Traceparent_thorough_r1.cfg", "workers": 6, "actions": ACTIONS + TASKS + LAZY + ["Header"]},
-            {"cfg": "Traceparent_thorough_r2.cfg", "workers": 6, "actions": ACTIONS + TASKS + LAZY + ["Header"]},
+            {"cfg": "Traceparent_thorough.cfg", "workers": 10, "replay": False, "actions": ACTIONS + ["Header"]},
+            {"cfg": "Traceparent_thorough2.cfg", "workers": 10, "replay": False, "actions": full},
+            {"cfg": "Traceparent_thorough3.cfg", "workers": 10, "replay": False, "actions": full},
+            {"cfg": "Traceparent_thorough4.cfg", "workers": 10, "replay": False,
+             "actions": [a for a in ACTIONS if a != "Current"] + ["Header"]},
+            {"cfg": "Traceparent_thorough_r1.cfg", "workers": 6, "actions": full},
+            {"cfg": "Traceparent_thorough_r2.cfg", "workers": 6, "actions": ACTIONS + TASKS + LAZY},
             {"cfg": "Traceparent_thorough_r3.cfg", "workers": 6, "actions": ACTIONS + ["Header"]},
+            {"cfg": "Traceparent_thorough_r4.cfg", "workers": 6, "actions": ACTIONS + ["Header"]},
             {"cfg": "Traceparent_thorough_sim.cfg", "workers": 4, "simulate": (20000, 18)},
         ]
         if ctx.replay_case() is None:
